@@ -3,4 +3,4 @@
 cd "$(dirname "$0")/.." || exit 2
 export VERIF_REPO="${VP_RUN_REPO:-/repo}"
 bin/verif setup > /dev/null 2>&1 || { echo "setup failed"; exit 2; }
-python3 bin/harmless.py "$@" 2>&1 | grep -v "^WARNING conda"
+python3 -u bin/harmless.py "$@" 2>&1 | grep --line-buffered -v "^WARNING conda"
